@@ -24,9 +24,9 @@ package runner
 //@   ensures  permit: held == old(held) + 1
 //@   ensures  unlocked: !holds(g.m)
 //@   modifies held
-//@   loop 0: invariant holds(g.m)
-//@   loop 0: invariant held == old(held)
-//@   loop 0: invariant g.capacity >= 0 && acq(g.capacity) == g.capacity
+//@   loop over for#1: invariant holds(g.m)
+//@   loop over for#1: invariant held == old(held)
+//@   loop over for#1: invariant g.capacity >= 0 && acq(g.capacity) == g.capacity
 
 //@ func (*runner.gate).exit
 //@   requires g != nil
@@ -77,9 +77,9 @@ package runner
 //@   ensures  final: t.status >= 2
 //@   ensures  outcome: result == t.err
 //@   ensures  (t.status == 2 ==> result == nil) && (t.status == 3 ==> result != nil)
-//@   loop 0: invariant holds(t.m) && t.status >= 1 && t.status <= 3
-//@   loop 0: invariant (t.status == 2 ==> t.err == nil) && (t.status == 3 ==> t.err != nil)
-//@   loop 0: invariant acq(t.status) == t.status && acq(t.err) == t.err && claimed == old(claimed)
+//@   loop over for#1: invariant holds(t.m) && t.status >= 1 && t.status <= 3
+//@   loop over for#1: invariant (t.status == 2 ==> t.err == nil) && (t.status == 3 ==> t.err != nil)
+//@   loop over for#1: invariant acq(t.status) == t.status && acq(t.err) == t.err && claimed == old(claimed)
 
 //@ func (*runner.target).run$1
 //@   requires t != nil
